@@ -60,5 +60,11 @@ func init() {
 		c.ruleLifecycle("M7-pool-returns-this-calls-map", nil)
 		c.only = nil
 		c.Min("M7-pool-returns-this-calls-map", 24)
+		// ... and that engine is this instance's alone: "a fresh map per call" holds for overlapping pool
+		// calls only if no two instances share an engine object (the construction obligation of C06-P3)
+		c.only = func(key string) bool { return key == "NewGenginePool#own-engine-per-instance" }
+		c.ruleConstruction("M8-one-engine-per-instance")
+		c.only = nil
+		c.Min("M8-one-engine-per-instance", 1)
 	}
 }
